@@ -498,3 +498,99 @@ namespace vd
         return res;
     }
 }
+
+// ---- roundtrip: code text -> compiled -> str -> recompiled; pretty printer; exact literal values ----
+#include "parser/sqf/sqf_formatter.h"
+#include "runtime/d_scalar.h"
+#include <sstream>
+namespace vd
+{
+    static void list_set_exact(const instruction_set& set, js::val& out)
+    {
+        for (auto it = set.begin(); it != set.end(); ++it)
+        {
+            if (auto p = dynamic_cast<const sqf::opcodes::push*>(it->get()))
+            {
+                auto v = p->value();
+                if (!v.empty() && v.is<sqf::runtime::t_code>())
+                {
+                    auto inner = js::val::array();
+                    list_set_exact(v.data<sqf::types::d_code>()->value(), inner);
+                    auto c = js::val::array(); c.push("CODE"); c.push(inner);
+                    out.push(c);
+                    continue;
+                }
+                if (!v.empty() && v.is<sqf::runtime::t_scalar>())
+                {
+                    char buf[64]; snprintf(buf, sizeof buf, "PUSH %.9g", (double)v.data<sqf::types::d_scalar>()->value());
+                    out.push(std::string(buf));
+                    continue;
+                }
+            }
+            out.push((*it)->to_string());
+        }
+    }
+    js::val mode_roundtrip(const js::val& req)
+    {
+        vmconf c = conf_from_json(req["conf"]);
+        static std::unique_ptr<vm> v;
+        static std::string vkey;
+        std::string key = c.ops + (c.synth ? "+s" : "");
+        if (!v || vkey != key) { v = make_vm(0, c); vkey = key; }
+        auto out = js::val::array();
+        auto& texts = req["texts"];
+        std::string what = req["what"].str("code");
+        for (size_t i = 0; i < texts.size(); i++)
+        {
+            g_log.clear();
+            auto o = js::val::object();
+            std::string text = texts[i].str();
+            fileio::pathinfo pi(std::string("r.sqf"), std::string("r.sqf"));
+            auto set = v->rt->parser_sqf().parse(*v->rt, text, pi);
+            o.set("ok", set.has_value());
+            if (set.has_value())
+            {
+                auto a1 = js::val::array();
+                if (what == "exact") { list_set_exact(*set, a1); o.set("a1", a1); }
+                else if (what == "code")
+                {
+                    list_set(*set, a1); o.set("a1", a1);
+                    auto code = std::make_shared<sqf::types::d_code>(*set);
+                    std::string s = code->to_string_sqf();
+                    o.set("str", s);
+                    auto set2 = v->rt->parser_sqf().parse(*v->rt, s, pi);
+                    o.set("ok2", set2.has_value());
+                    if (set2.has_value())
+                    {
+                        auto a2 = js::val::array(); list_set(*set2, a2); o.set("a2", a2);
+                        // value-level equality of the recompiled block with the original
+                        bool eq = false;
+                        if (set2->size() == 1)
+                        {
+                            if (auto p = dynamic_cast<const sqf::opcodes::push*>(set2->begin()->get()))
+                                eq = sqf::runtime::value(code) == p->value();
+                        }
+                        o.set("value_equal", eq);
+                    }
+                }
+                else if (what == "pretty")
+                {
+                    list_set(*set, a1); o.set("a1", a1);
+                    std::ostringstream pretty;
+                    sqf::parser::sqf::formatter fmt(*v->rt, text, pi);
+                    fmt.prettify(fmt.getRes(), 0, pretty);
+                    std::string s = pretty.str();
+                    o.set("str", s);
+                    auto set2 = v->rt->parser_sqf().parse(*v->rt, s, pi);
+                    o.set("ok2", set2.has_value());
+                    if (set2.has_value()) { auto a2 = js::val::array(); list_set(*set2, a2); o.set("a2", a2); }
+                }
+            }
+            if (!g_log.empty()) o.set("log", log_to_json(0));
+            out.push(o);
+        }
+        auto res = js::val::object();
+        res.set("items", out);
+        return res;
+    }
+}
